@@ -16,6 +16,10 @@ EPS = float(np.finfo(float).eps)
 KB = R.KB
 _h = {'ctx': None, 'installed': False}
 MAX_HEIGHT_RADII = 2.0          # "bound": finite altitudes, top below 2 planetary radii above the surface
+# C11 itself is the hydrostatic recursion only (no ray geometry): it is judged for every atmosphere whose altitudes stay
+# finite and modest in double precision -- also loosely bound, extended ones (scale height above the distance from the
+# centre) -- up to this height; the spectrum properties keep the tighter 'bound' domain
+JUDGE_HEIGHT_RADII = 1.0e3
 # amplification of a relative input difference by the bottom-up recursion is at most ((R+z_top)/R)^2 <= 9 here;
 # inputs agree to ~1e-12 (unit conversions of M_J, R_J), rounding adds ~n*eps
 HYDRO_RTOL = 1e-9
@@ -150,8 +154,11 @@ def install(ctx):
             return False
         rz, rdz, rH, rg, bound = reference(T, Pl, mu, planet)
         if not bound:
-            c.event('contract-domain-skip:%s:atmosphere-not-bound' % prefix)
-            return False
+            _, r_ = planet_mass_radius(planet)
+            if rz is None or not (np.all(np.isfinite(rz)) and np.all(rdz > 0) and rz[-1] < JUDGE_HEIGHT_RADII * r_):
+                c.event('contract-domain-skip:%s:atmosphere-not-bound' % prefix)
+                return False
+            c.observe('atmosphere:extended-beyond-two-radii')
         n = len(T)
         w = dict(w, n=n)
         z, H, g, dz = (np.asarray(v, dtype=float) for v in (z, H, g, dz))
